@@ -1,6 +1,6 @@
 import os, random
 from ..runner import Prop
-from .. import bbigen, core
+from .. import bbigen, bedgen, core
 from ..core import parse_sx, sx
 
 def _pfx(a, b):
@@ -11,11 +11,12 @@ class C14(Prop):
     THEOREMS = ["C14_header_operation", "C14_prefix_rejected", "C14_prefix_rejected_ops", "C14_prefix_complete",
                 "C14_prefix_serves", "C14_trace_is_file", "C14_trace_is_file_multipass", "C14_refused_input", "C14_fault", "C14_fault_state",
                 "C14_last_flush_refuted", "C14_debug_split_refuted"]
-    RULE = ("bbi cases (1-6 chromosomes, layouts from the grammar, options compress x items_per_slot x block_size x zoom modes x "
+    RULE = ("bigWig: bbi cases (1-6 chromosomes, layouts from the grammar, options compress x items_per_slot x block_size x zoom modes x "
             "single/two pass) plus malformed inputs (overlap, end beyond the chromosome, start > end, unknown chromosome, chromosome "
             "order, empty) at the first/middle/last chromosome; for every case: the recorded sink trace, EVERY crash point at "
             "operation granularity and byte cuts inside every write but the header operation, a failure injected at EVERY "
-            "operation of every kind (seek/write/flush); non-trivial = accepted input with at least 2 values; distinct = distinct case text")
+            "operation of every kind (seek/write/flush); plus one-chromosome cases (exact trace comparison), multi-chromosome cases above the "
+            "BufWriter capacity, and bigBed cases (entry layouts disjoint/overlapping/nested/identical/zero-length, autoSql variants) judged by the oracle; non-trivial = accepted input with at least 2 values; distinct = distinct case text")
     CORRESPONDENCE = ("recorded sink trace of BigWigWrite::write / write_multipass = Model/SinkTrace.v trace: exactly (operations, crash-point "
                       "verdicts, fault outcomes) for one-chromosome uncompressed inputs whose regions stay below the BufWriter capacity; "
                       "as coalesced write runs (which region is written when) otherwise; refused inputs: what was written is a prefix of the model's")
@@ -108,6 +109,19 @@ class C14(Prop):
             threads = rng.choice([2, 0, 4]); inmem = rng.choice([0, 1])
             c.append([threads, inmem, 0])
             yield sx(c), tags + ["threads=%d" % threads, "inmemory=%d" % inmem]
+        # bigBed (same write_info / write_data / write_mid, its own write_pre): no trace model, the oracle judges
+        for i in range(40 if tier == "quick" else 600):
+            txt, tags = bedgen.bed_case(rng, tier, want=("ranges" if i % 2 else "roundtrip"), nqueries=12)
+            c = parse_sx(txt)
+            kind, o, sizes, inp, qs, asql, flags = c
+            qs = [q for q in qs if q[0] != 7][:30]
+            # zoom levels are part of what the file advertises: ask for them too
+            levels = (o[5][0] if o[5] else [o[3] * 4 ** k for k in range(min(o[4], 10))])
+            for s_ in sizes[:3]:
+                for r in list(levels)[:3]:
+                    qs.append([2, s_[0], 0, s_[1], r])
+            threads = rng.choice([2, 0, 4]); inmem = rng.choice([0, 1])
+            yield sx([10 + kind, o, sizes, inp, qs, [threads, inmem, 0], asql]), ["bigBed"] + tags + ["threads=%d" % threads, "inmemory=%d" % inmem]
         for i in range(8 if tier == "quick" else 120):
             c = self.spill_case(rng)
             threads = rng.choice([2, 0, 4, 8]); inmem = rng.choice([0, 1])
@@ -125,9 +139,15 @@ class C14(Prop):
             i = parse_sx(impl_out); m = parse_sx(model_out)
         except Exception:
             return False
-        if len(i) != 6 or len(m) != 8:
+        if len(i) != 6:
             return False
         st = self.STATS
+        if m == []:          # bigBed: oracle only
+            st["bigbed_cases"] = st.get("bigbed_cases", 0) + 1
+            st["sink_operations"] += len(i[1]); st["crash_points_replayed"] += len(i[3]); st["faults_injected"] += len(i[5])
+            return True
+        if len(m) != 8:
+            return False
         st["sink_operations"] += len(i[1]); st["crash_points_replayed"] += len(i[3]); st["faults_injected"] += len(i[5])
         st["torn_header_cuts"] += i[4][0]; st["torn_header_cuts_accepted_and_different"] += i[4][1]
         if m[1] and m[2] and m[0] == [0]:
